@@ -104,7 +104,7 @@ fn steps(s: &mut Src, w: &StepW, len: (usize, usize), in_future: bool, depth: us
 fn op(s: &mut Src, p: &Profile, w: &OpW) -> Op {
     let ws = [
         w.desync, w.sync, w.trysync, w.futdesync, w.futsync, w.after, w.await_, w.syncwait, w.pollonce, w.dropfut, w.detach, w.release, w.opengate, w.rewake, w.waitfor, w.yield_, w.suspend, w.awaitsuspend, w.resume, w.dropresumer, w.pipein, w.pipe,
-        w.consume, w.droppipe, w.awaitinline, w.consumeinline,
+        w.consume, w.droppipe, w.awaitinline, w.consumeinline, w.setdepth,
     ];
     let k = s.weighted(&ws);
     let pipe_body = |s: &mut Src| -> Vec<Step> {
@@ -144,7 +144,8 @@ fn op(s: &mut Src, p: &Profile, w: &OpW) -> Op {
         22 => Op::Consume { slot: s.u8(), k: s.u8() },
         23 => Op::DropPipe { slot: s.u8() },
         24 => Op::AwaitInline { slot: s.u8() },
-        _ => Op::ConsumeInline { slot: s.u8(), drop_on_wake: s.pct(40) },
+        25 => Op::ConsumeInline { slot: s.u8(), drop_on_wake: s.pct(40) },
+        _ => Op::SetDepth { slot: s.u8(), depth: s.u8() },
     }
 }
 
